@@ -80,6 +80,8 @@ type Contract struct {
 	NoFrame    bool                 // the modifies clause is used at call sites but not checked against the body
 	ChecksPub  bool                 // element writes are checked against the publication typestate (functions that fill the shared caches)
 	NoSafety   bool                 // the zero-annotation no-panic sweep is not run for this function (recorded in Assumed)
+	UseScen    map[string]string    // scenario contracts: at calls of <callee>, the scenario contract <callee>@<name> is applied instead of the plain one
+	CbSkip     string               // scenario contracts: every dynamically called function value ends by a skip (panic invalidData) - the hypothesis, quoted
 	Globals    *Clause              // global frame: the only package-level variables of the package the body (and its literals) may mention (Src = comma-separated names)
 	Captures   *Clause              // closures: the only variables the function literal may capture (Src = comma-separated names)
 	StoreAnns  map[string][]*Clause // "after-store <global> assert e": checked right after the package variable is assigned
@@ -377,6 +379,21 @@ func (ss *SpecSet) parseFile(path string, dep bool) error {
 			case "captures":
 				tags, body := parseTags(rest)
 				cur.Captures = &Clause{Kind: "captures", Tags: tags, Src: body, Line: ln + 1, File: path}
+			case "uses-scenario":
+				// uses-scenario F@name: inside this scenario, calls of F are given F's own scenario contract F@name (whose
+				// preconditions are checked at the call like any other's)
+				k := strings.TrimSpace(rest)
+				i := strings.Index(k, "@")
+				if i <= 0 {
+					return fmt.Errorf("%s:%d: uses-scenario <function>@<name>", path, ln+1)
+				}
+				if cur.UseScen == nil {
+					cur.UseScen = map[string]string{}
+				}
+				cur.UseScen[k[:i]] = k
+			case "callbacks-skip":
+				cur.CbSkip = strings.Trim(strings.TrimSpace(rest), `"`)
+				cur.Assumed = append(cur.Assumed, "scenario hypothesis of "+cur.Key+": every function value it calls ends by a skip ("+cur.CbSkip+")")
 			case "globals":
 				// globals [tags] a, b | nothing: the package-level variables of the package under verification that the
 				// function's own body and its function literals may mention at all (read, write or address)
